@@ -11,7 +11,7 @@ class C19(CalibCheck):
     # the source map depends on nesting depth and on how many instructions each level emits, not on what is substituted:
     # three levels of nesting over bodies of one to three instructions, one or two of them calls
     K = {"quick": 3, "thorough": 3}
-    quick_bodies = ("x", "x-fence", "fence-x-fence", "three", "decl-x")
+    quick_bodies = ("x", "x-fence", "decl-x", "extern-x", "x-decl-fence")
     quick_headers = ("hf", "hv")
     quick_body = ("g",)
     sorted_shapes = {"quick": True}
